@@ -43,7 +43,14 @@ func isChain(c []*big.Int) bool {
 	return true
 }
 
-// the same for long derived chains: hash lookup of x - c[i] among earlier elements
+// the same for long derived chains: hash lookup of x - c[i] among earlier elements, newest first
+func key(x *big.Int) string {
+	if x.Sign() < 0 {
+		return "-" + string(x.Bytes())
+	}
+	return string(x.Bytes())
+}
+
 func isChainFast(c []*big.Int) bool {
 	if len(c) == 0 || c[0].Cmp(big.NewInt(1)) != 0 {
 		return false
@@ -54,14 +61,14 @@ func isChainFast(c []*big.Int) bool {
 		if x.Sign() == 0 {
 			return false
 		}
-		if _, dup := pos[x.String()]; dup {
+		if _, dup := pos[key(x)]; dup {
 			return false
 		}
 		if k > 0 {
 			found := false
-			for i := 0; i < k; i++ {
+			for i := k - 1; i >= 0; i-- {
 				d.Sub(x, c[i])
-				if _, ok := pos[d.String()]; ok { // earlier element (all keys so far have position < k)
+				if _, ok := pos[key(d)]; ok { // an earlier element (all keys so far have position < k)
 					found = true
 					break
 				}
@@ -70,7 +77,7 @@ func isChainFast(c []*big.Int) bool {
 				return false
 			}
 		}
-		pos[x.String()] = k
+		pos[key(x)] = k
 	}
 	return true
 }
@@ -145,10 +152,10 @@ func min(a, b int) int {
 
 func gen(tier string, r *lib.Rand, emit func(string)) {
 	maxlen, sampleFrom, num, den := 7, 99, 1, 1
-	nrand, bound, maxn := 400, int64(300), 40
+	nrand, bound, maxn, nbig := 400, int64(300), 40, 0
 	if tier == "thorough" {
 		maxlen, sampleFrom, num, den = 9, 8, 1, 12
-		nrand, bound, maxn = 8000, 3000, 60
+		nrand, bound, maxn, nbig = 3000, 1000, 50, 48
 	}
 	e := func(c []*big.Int) { emit("runschain " + lib.HexList(c)) }
 
@@ -183,11 +190,14 @@ func gen(tier string, r *lib.Rand, emit func(string)) {
 	})
 
 	// (b) random longer chains of lengths, generation order and ascending
-	for i := 0; i < nrand; i++ {
+	for i := 0; i < nrand+nbig; i++ {
 		n := r.Range(5, maxn)
 		b := bound
 		if r.Chance(1, 2) {
 			b = int64(r.Range(20, int(bound)))
+		}
+		if i >= nrand { // a few chains with values up to a few thousand (the model prints slowly)
+			b = int64(r.Range(1000, 3000))
 		}
 		c := randomChain(n, b, r)
 		e(ints(c))
@@ -259,7 +269,7 @@ func oracle(c, res string) string {
 		}
 		return ""
 	}
-	word := new(big.Int).Lsh(big.NewInt(1), 63)
+	word := new(big.Int).Lsh(big.NewInt(1), 64)
 	for _, l := range in {
 		if l.Cmp(word) >= 0 {
 			if err == nil {
@@ -276,13 +286,13 @@ func oracle(c, res string) string {
 	}
 	have := map[string]bool{}
 	for _, x := range out {
-		have[x.String()] = true
+		have[key(x)] = true
 	}
 	one := big.NewInt(1)
 	for _, l := range in {
 		run := new(big.Int).Lsh(one, uint(l.Uint64()))
 		run.Sub(run, one)
-		if !have[run.String()] {
+		if !have[key(run)] {
 			return fmt.Sprintf("derived chain lacks 2^%v - 1", l)
 		}
 	}
